@@ -366,6 +366,16 @@ func (o *objectValidator) validatePropertiesSchema(val map[string]interface{}, r
 			if !o.Options.skipSchemataResult {
 				res.addPropertySchemata(val, pName, pSchema) // this shallow-clones the content of the pSchema pointer
 			}
+
+			continue
+		}
+
+		// the default may also be declared by an allOf member of the property: it describes the same value
+		if withDefault := allOfMemberWithDefault(pSchema); withDefault != nil {
+			createdFromDefaults[pName] = struct{}{}
+			if !o.Options.skipSchemataResult {
+				res.addPropertySchemata(val, pName, withDefault)
+			}
 		}
 	}
 
@@ -386,6 +396,21 @@ func (o *objectValidator) validatePropertiesSchema(val map[string]interface{}, r
 
 		res.AddErrors(errors.Required(fmt.Sprintf("%s.%s", o.Path, k), o.In, v))
 	}
+}
+
+// allOfMemberWithDefault returns the first allOf member of a schema (at any depth of allOf) that declares a default.
+func allOfMemberWithDefault(schema *spec.Schema) *spec.Schema {
+	for i := range schema.AllOf {
+		member := &schema.AllOf[i]
+		if member.Default != nil {
+			return member
+		}
+		if nested := allOfMemberWithDefault(member); nested != nil {
+			return nested
+		}
+	}
+
+	return nil
 }
 
 // TODO: succeededOnce is not used anywhere
